@@ -80,6 +80,19 @@ Theorem c51_frozen_result_roundtrip : forall f,
 Proof. exact frozen_roundtrip_spec. Qed.
 Print Assumptions c51_frozen_result_roundtrip.
 
+(* the keys of the result still resolve to their positions on rows of the unpickled frozen result ... *)
+Theorem c51_frozen_key_lookup_kept : forall f i k, NoDup (md_keys (fr_md f)) ->
+  nth_error (md_keys (fr_md f)) i = Some k -> frozen_index (frozen_roundtrip f) (KStr k) = Some i.
+Proof. exact frozen_key_lookup_kept. Qed.
+Print Assumptions c51_frozen_key_lookup_kept.
+
+(* ... but every other STRING key the frozen result answered before (Column.key, the "table_column"
+   label) raises KeyError afterwards, although a directly pickled Row keeps them (c51_row_roundtrip) *)
+Theorem c51_frozen_alias_lookup_refuted : exists f k i,
+  frozen_index f (KStr k) = Some i /\ frozen_index (frozen_roundtrip f) (KStr k) = None.
+Proof. exact frozen_alias_lookup_refuted. Qed.
+Print Assumptions c51_frozen_alias_lookup_refuted.
+
 (* ---------- ext.serializer ---------- *)
 (* every persistent id resolves to the same table / column / mapper / property / mapped selectable, hence
    loads (dumps stmt) = stmt, for every statement whose persistent objects exist in the target environment
@@ -123,4 +136,15 @@ Example c51_ex_serializer :
   loads (fun s => if str_eqb s [65] then Some 0 else None) [([116], [[105; 100]; [120]])] (fun _ => [[98; 115]])
         (dumps (fun _ => [65]) (SNode 1 [SLeaf (LColumn [116] [120]); SLeaf (LMapper 0); SNode 2 [SLeaf (LProp 0 [98; 115])]]))
   = LOk (SNode 1 [SLeaf (LColumn [116] [120]); SLeaf (LMapper 0); SNode 2 [SLeaf (LProp 0 [98; 115])]]).
+Proof. vm_compute. reflexivity. Qed.
+
+(* schema-qualified tables: "archive.item" next to a table "item" in the default schema - the column id
+   carries the table KEY, so each column resolves to its own table *)
+Example c51_ex_serializer_schema :
+  let arch := [97; 114; 99; 104; 105; 118; 101; 46; 105; 116; 101; 109] in
+  let item := [105; 116; 101; 109] in
+  let tabs := [(item, [[105; 100]; [120]]); (arch, [[105; 100]; [120]])] in
+  loads (fun _ => None) tabs (fun _ => [])
+        (dumps (fun _ => []) (SNode 1 [SLeaf (LColumn arch [120]); SLeaf (LColumn item [120]); SLeaf (LTable arch)]))
+  = LOk (SNode 1 [SLeaf (LColumn arch [120]); SLeaf (LColumn item [120]); SLeaf (LTable arch)]).
 Proof. vm_compute. reflexivity. Qed.
